@@ -399,8 +399,43 @@ def pool_dist(rs):
             d["woken_polls"] += o.endswith("w")
     return d
 
-POOL_STREAM = {"name": "pool", "quick": 6000, "thorough": 300000, "sep": ";", "batch": 4000, "keep": ["mark"],
+POOL_STREAM = {"amplify": lambda r: pool_amplify(r), "name": "pool", "quick": 6000, "thorough": 300000, "sep": ";", "batch": 4000, "keep": ["mark"],
                "nontrivial": pool_nontrivial, "distribution": pool_dist}
+def pool_amplify(r):
+    """A case on which model and pool disagree without the specification objecting (a bookkeeping difference, say): variants of it
+    that give the difference a chance to matter - further requests for every origin placed just before the step at which the two
+    part, then every attempt resolved (failing), tasks run, everybody polled twice."""
+    toks = r["input"].split(" ; ")
+    head, ops = toks[0], toks[1:]
+    shown = r.get("model", "").split(" ; ")
+    j = next((i for i, e in enumerate(shown) if e.rstrip().endswith("<")), len(ops))
+    j = min(j, len(ops))
+    reqs, keys = [], []
+    for o in ops:
+        t = o.split()
+        if t and t[0] == "i" and len(t) >= 4:
+            reqs.append(t[1])
+            if t[2] not in keys: keys.append(t[2])
+    if not reqs: return []
+    out = []
+    for mux in ("1", "0"):
+        extra, new = [], []
+        for n, k in enumerate(keys[:3]):
+            for rep in range(2):
+                q = str(900 + 10 * n + rep + (50 if mux == "0" else 0))
+                extra += ["i %s %s %s" % (q, k, mux), "p " + q]
+                new.append(q)
+        everyone = reqs + new
+        rnd = ["p " + q for q in everyone] + ["d %s fc" % q for q in everyone] + ["run"]
+        drain = ["mark"] + rnd + rnd + rnd + ["p " + q for q in everyone] + ["mark", "mark"]
+        for at in sorted({j, max(j - 1, 0), len(ops)}):
+            # whoever has been issued by then gets a poll first (its attempt is under way), then the newcomers arrive
+            sofar = [o.split()[1] for o in ops[:at] if o.split()[:1] == ["i"] and len(o.split()) >= 4]
+            out.append(" ; ".join([head] + ops[:at] + ["p " + q for q in sofar] + extra + ops[at:] + drain))
+    rnd = ["p " + q for q in reqs] + ["d %s fc" % q for q in reqs] + ["run"]
+    out.append(" ; ".join([head] + ops + ["mark"] + rnd + rnd + ["p " + q for q in reqs] + ["mark", "mark"]))
+    return out
+
 POOLT_STREAM = {"name": "poolt", "quick": 40, "thorough": 1500, "sep": ";", "batch": 4000, "keep": ["mark"],
                 "exhaustive": "poolt-exhaustive", "exhaustive_always": True,
                 "nontrivial": pool_nontrivial, "distribution": pool_dist}
@@ -453,9 +488,9 @@ CONN_RULE = (" | conn: the leaf contract on hyperdriver's own HttpConnection (HT
 
 def cfgp_dist(rs):
     d = {"cases": len(rs), "skipped_unreliable": 0, "builder_sequence": {}, "max_idle": {}, "with_idle_timeout": 0, "burst_exceeds_limit": 0,
-         "follow_up_after_timeout": 0}
+         "follow_up_after_timeout": 0, "request_timeout_shorter_than_handler": 0, "redirect_policy": {}, "own_user_agent": 0}
     for r in rs:
-        t = r["input"].split()[-5:]
+        t = r["input"].split()[-8:]
         if r["obs"] == "unreliable":
             d["skipped_unreliable"] += 1
             continue
@@ -464,16 +499,25 @@ def cfgp_dist(rs):
         d["with_idle_timeout"] += t[2] != "-"
         d["burst_exceeds_limit"] += int(t[3]) > int(t[1])
         d["follow_up_after_timeout"] += t[2] != "-" and int(t[4]) > int(t[2])
+        d["request_timeout_shorter_than_handler"] += t[5] != "-" and int(t[5]) < 400
+        d["redirect_policy"][t[6]] = d["redirect_policy"].get(t[6], 0) + 1
+        d["own_user_agent"] += t[7] == "1"
     return d
 
-CFGP_STREAM = {"name": "cfgp", "quick": 40, "thorough": 1500, "head": 6, "unit": 1, "batch": 500,
-               "nontrivial": lambda r: int(r["input"].split()[-2]) > int(r["input"].split()[-4]), "distribution": cfgp_dist}
-CFGP_RULE = (" | cfgp: the pool configuration on its way through Client::builder - with_pool on a fresh builder, after with_default_pool, "
-             "after without_pool, before the transport is chosen, given twice, on Builder::default(), or edited in place through pool() - "
-             "max_idle_per_host in {0,1,2,3,40}, idle_timeout none / 80 ms; a burst of 1-5 concurrent HTTP/1.1 requests to one origin over "
+CFGP_STREAM = {"name": "cfgp", "quick": 48, "thorough": 1500, "head": 9, "unit": 1, "batch": 500,
+               "nontrivial": lambda r: int(r["input"].split()[-5]) > int(r["input"].split()[-7]), "distribution": cfgp_dist}
+CFGP_RULE = (" | cfgp: the configuration on its way through Client::builder. Sequences 0-6: the pool configuration handed over by with_pool on a "
+             "fresh builder, after with_default_pool, after without_pool, before the transport is chosen, given twice, on Builder::default(), "
+             "or edited in place through pool(); sequences 7-15: pool configuration, request timeout, user agent and redirect policy are "
+             "set FIRST and then a chain of the calls that rebuild the builder value field by field follows (with_transport / "
+             "with_auto_http in either order, with_tcp, with_protocol, with_redirect_policy, with_standard_redirect_policy, "
+             "without_redirects, layer, with_body). max_idle_per_host in {0,1,2,3,40}, idle_timeout none / 80 ms, request timeout none / "
+             "150 ms / 5 s, redirects none / standard / limited; a burst of 1-5 concurrent HTTP/1.1 requests to one origin over "
              "in-memory connections to a real hyperdriver server that counts its connections and answers only when the whole burst has "
-             "arrived; observed: connections still open 20 ms after everything was released, and connections accepted in all after one more "
-             "request 5 / 200 ms later; the model runs the same history through the pool model with the configuration given")
+             "arrived; observed: connections still open 20 ms after everything was released, connections accepted in all after one more "
+             "request 5 / 200 ms later, the outcome of a request whose handler takes 400 ms, the status of a redirected request, and whether "
+             "every request carried the configured user agent; the model runs the same history through the pool model with the "
+             "configuration given and derives the rest from the configuration")
 
 def pool_prop(mod, prefixes, theorems, timed=False, mt=False, leaf=False, cfgp=False):
     return {"props_module": mod, "class_prefix": prefixes, "theorems": theorems,
@@ -569,7 +613,7 @@ PROPS = {
     "C04": pool_prop("HdModel.Props.C04", ["C04/"], ["Hd.Pool.C04_reuse_issue", "Hd.Pool.C04_reuse_poll", "Hd.Pool.C04_share_stays_pooled",
         "Hd.Pool.C04_dedup_issue", "Hd.Pool.C04_dedup_poll", "Hd.Pool.C04_marker_owner", "Hd.Pool.issue_found", "Hd.Pool.issue_missing",
         "Hd.Pool.C04_one_attempt_per_origin", "Hd.Pool.C04_attempt_ids_distinct", "Hd.Pool.step_minv", "Hd.Pool.run_minv",
-        "Hd.Pool.C04_released_connection_is_kept", "Hd.Pool.C04_cancel_returns_unused", "Hd.Pool.C04_only_polls_dial", "Hd.Pool.dropCheckout_dials"], leaf=True),
+        "Hd.Pool.C04_released_connection_is_kept", "Hd.Pool.C04_cancel_returns_unused", "Hd.Pool.C04_only_polls_dial", "Hd.Pool.dropCheckout_dials"], leaf=True, cfgp=True),
     "C05": pool_prop("HdModel.Props.C05", ["C05/"], ["Hd.Pool.C05_pop_spec", "Hd.Pool.C05_expired_head", "Hd.Pool.C05_no_timeout_never_expires",
         "Hd.Pool.C05_pop_suffix", "Hd.Pool.C05_issue_fresh"], timed=True, leaf=True, cfgp=True),
     "C06": pool_prop("HdModel.Props.C06", ["C06/"], ["Hd.Pool.C06_request_gets_own_origin", "Hd.Pool.C06_held_same_origin",
@@ -747,8 +791,9 @@ PROPS = {
                  "redirects_followed": sum(r["input"].split()[3] != "0" for r in rs),
                  "several_hops": sum(len(r["input"].split()) > 7 for r in rs),
                  "timed_out": sum(r["obs"].startswith("timeout") for r in rs), "answered": sum(r["obs"].startswith("ok-") for r in rs)}},
+            CFGP_STREAM,
         ],
-        "rule": "toc: the timeout as Client::builder installs it - duration none/0/1/50/300/1000 ms handed over by with_timeout / "
+        "rule": CFGP_RULE[3:] + " | toc: the timeout as Client::builder installs it - duration none/0/1/50/300/1000 ms handed over by with_timeout / "
                 "without_timeout, with_optional_timeout, or set and then set again; redirects not followed / standard policy / "
                 "Builder::default(); pool on/off - over in-memory connections to a real hyperdriver server answering 1-4 redirect hops "
                 "after scripted delays (0-400 ms each) under tokio's paused clock: outcome, virtual instant of resolution (the whole "
@@ -806,6 +851,12 @@ PROPS = {
         "streams": [
             {"name": "sni", "quick": 6000, "thorough": 300000, "head": 8, "unit": 1,
              "nontrivial": sni_nontrivial, "distribution": sni_dist},
+            {"name": "snie", "quick": 400, "thorough": 20000, "head": 8, "unit": 1, "batch": 5000,
+             "nontrivial": lambda r: r["input"].split()[6] == "1" and r["input"].split()[7] != "-",
+             "distribution": lambda rs: {"cases": len(rs), "http2": sum(r["input"].split()[1] == "1" for r in rs),
+                 "tls": sum(r["input"].split()[6] == "1" for r in rs), "no_sni_sent": sum(r["input"].split()[6] == "1" and r["input"].split()[7] == "-" for r in rs),
+                 "forwarded_validated": sum(r["obs"] == "fwd 1" for r in rs), "forwarded_plain": sum(r["obs"] == "fwd 0" for r in rs),
+                 "rejected": sum(r["obs"] == "rej" for r in rs)}},
             {"name": "tlsch", "quick": 3000, "thorough": 200000, "head": 2, "unit": 1, "batch": 50000,
              "nontrivial": lambda r: "P" in r["obs"].split(),
              "distribution": lambda rs: {"cases": len(rs), "plain_connection": sum(r["input"].split()[1] == "e" for r in rs),
@@ -816,7 +867,11 @@ PROPS = {
         ],
         "rule": "requests from a grammar (HTTP/1.1|2, Host header / authority present or absent, 12 base names incl. IPv4/IPv6 "
                 "literals and punycode, 4 letter-case variants, ports, TLS info present/absent, server name present/absent/"
-                "different/differently cased) through the public ValidateSNI layer; non-trivial = TLS info present and a host named | tlsch: "
+                "different/differently cased) through the public ValidateSNI layer; non-trivial = TLS info present and a host named | snie: the same "
+                "requests end to end - a raw TLS client (tokio-rustls, SNI = the server name, or an IP address so that none is sent) and a hyper "
+                "client connection (HTTP/1.1 or HTTP/2 by ALPN) against a real hyperdriver Server behind its TLS acceptor with "
+                "with_tls_connection_info() and the ValidateSNI layer around the handler, which reports the validated mark it sees; "
+                "HTTP/2 requests always carry an authority (hyper's client insists) | tlsch: "
                 "how the TLS info gets to the requests - the crate-private channel between acceptor and connection service (hook "
                 "verif_hooks::tls_info): 1-5 requests call recv() on clones of the receiver, are polled one poll at a time or dropped, in "
                 "any order around the acceptor's send; then everybody still waiting is polled three rounds and a late request asks; "
